@@ -142,6 +142,28 @@ def checkGraph (c : Case) : CaseResult := Id.run do
   let MD := johnsons selMin g
   if let some (i, j) := matEq n MD JO then
     return fail (.diverge s!"model dijkstra/johnsons differs from C++ johnsons at i={i} j={j}: model {showDist (MD.get i j)} impl {showDist (JO.get i j)}")
+  -- 3b. Dijkstra exactly as coded (pairing-heap model): distances and the order in which nodes
+  --     leave the heap (observed through the traced instantiation), n ≤ 64
+  if n ≤ 64 then
+    if (c.get "dxbad").size > 0 then
+      return fail (.diverge "dijkstra<Traced> and dijkstra<double> returned different distances")
+    let dx := c.get "dx"
+    if dx.size != n then return fail (.diverge s!"expected {n} dx lines, got {dx.size}")
+    let mut tiedRuns := 0
+    for s in [0:n] do
+      let run := dijkstraHeapRun g s
+      for j in [0:n] do
+        if Vec.at run.out j != DJ.get s j then
+          return fail (.diverge s!"model dijkstraHeap differs from C++ dijkstra at s={s} j={j}: model {showDist (Vec.at run.out j)} impl {showDist (DJ.get s j)}")
+      let mo := run.order.reverse
+      let row := dx[s]!
+      let io := ((row.extract 1 row.size).map nat!).toList
+      if nat! row[0]! != s then return fail (.diverge "dx lines out of order")
+      if mo != io then
+        return fail (.diverge s!"extraction order of dijkstra(s={s}) differs: model {mo} impl {io}")
+      let keys := io.map fun v => DJ.get s v
+      if keys.eraseDups.length != keys.length then tiedRuns := tiedRuns + 1
+    stats := stats ++ [("dijkstraHeap.runs-compared", n), ("dijkstraHeap.runs-with-tied-keys", tiedRuns)]
   -- 4. floyd_warshall last
   let mut modelNote := ""
   let mut modelDiverges := false
@@ -172,8 +194,8 @@ def extractOk (live : List (Nat × Rat)) (id : Nat) (k : Rat) : Bool :=
 
 def checkHeap (c : Case) : CaseResult := Id.run do
   let mut live : List (Nat × Rat) := []          -- multiset specification
-  let mut H : AdaptaVerif.Model.PairingHeap.PTree := .nil     -- tree model (mirrors the pointer structure)
-  let mut B : AdaptaVerif.Model.PairingHeap.PTree := .nil
+  let mut H : AdaptaVerif.Model.PairingHeap.PTree Rat := .nil     -- tree model (mirrors the pointer structure)
+  let mut B : AdaptaVerif.Model.PairingHeap.PTree Rat := .nil
   let mut pendingB := 0
   let mut next := 0
   let mut nops := 0
@@ -186,19 +208,19 @@ def checkHeap (c : Case) : CaseResult := Id.run do
     if op == "i" then
       let some k := num? l[1]! | return { verdict := .diverge "unparsable key" }
       live := (next, k) :: live
-      H := AdaptaVerif.Model.PairingHeap.insert H k next
+      H := AdaptaVerif.Model.PairingHeap.insert AdaptaVerif.Model.PairingHeap.ltRat H k next
       next := next + 1
     else if op == "g" then
       pendingB := nat! l[1]!
       B := .nil
-      if pendingB == 0 then H := AdaptaVerif.Model.PairingHeap.merge H B
+      if pendingB == 0 then H := AdaptaVerif.Model.PairingHeap.merge AdaptaVerif.Model.PairingHeap.ltRat H B
     else if op == "j" then
       let some k := num? l[1]! | return { verdict := .diverge "unparsable key" }
       live := (next, k) :: live
-      B := AdaptaVerif.Model.PairingHeap.insert B k next
+      B := AdaptaVerif.Model.PairingHeap.insert AdaptaVerif.Model.PairingHeap.ltRat B k next
       next := next + 1
       pendingB := pendingB - 1
-      if pendingB == 0 then H := AdaptaVerif.Model.PairingHeap.merge H B
+      if pendingB == 0 then H := AdaptaVerif.Model.PairingHeap.merge AdaptaVerif.Model.PairingHeap.ltRat H B
     else if op == "m" || op == "z" then
       let mut todo := if op == "m" then 1 else live.length
       if op == "z" && outs.size != nx + todo then
@@ -216,14 +238,14 @@ def checkHeap (c : Case) : CaseResult := Id.run do
           if mk != k || mid != id then
             return { verdict := .diverge s!"PairingHeap tree model: extraction #{nx} model (key {ratToString mk}, item {mid}) impl (key {ratToString k}, item {id})" }
         | none => return { verdict := .diverge s!"PairingHeap tree model empty at extraction #{nx}" }
-        H := AdaptaVerif.Model.PairingHeap.deleteMin H
+        H := AdaptaVerif.Model.PairingHeap.deleteMin AdaptaVerif.Model.PairingHeap.ltRat H
         live := live.filter fun x => x.1 != id
         nx := nx + 1
     else if op == "d" then
       let id := nat! l[1]!
       let some k := num? l[2]! | return { verdict := .diverge "unparsable key" }
       live := live.map fun x => if x.1 == id then (id, k) else x
-      H := AdaptaVerif.Model.PairingHeap.decreaseKey H id k
+      H := AdaptaVerif.Model.PairingHeap.decreaseKey AdaptaVerif.Model.PairingHeap.ltRat H id k
     else pure ()
   if nx != outs.size then
     return { verdict := .diverge s!"PairingHeap: {outs.size} extractions, multiset model {nx}" }
